@@ -1,6 +1,8 @@
 package checks
 
 import (
+	"bytes"
+	"encoding/json"
 	"encoding/xml"
 	"fmt"
 	"net/http/httptest"
@@ -285,6 +287,66 @@ func runC14(c *core.Ctx) {
 		}
 	}
 
+	// the login form of the IdP-initiated (shortcut) flow: the request's own path suffix and query are peer-controlled; the form must be
+	// the same form whatever they are (differential against the same request with benign strings)
+	c.Group("login-form-shortcut-flow")
+	for si, s := range strs {
+		for _, where := range []string{"path-suffix", "query", "double-slash-path"} {
+			s, si, where := s, si, where
+			key := fmt.Sprintf("form/idp-login-shortcut/%s/str#%d=%+q", where, si, truncStr(s, 40))
+			c.Case(key, func(t *core.T) {
+				t.NonTrivial()
+				kp := samlgen.Key("idp1")
+				store := &samlidp.MemoryStore{}
+				srv, err := samlidp.New(samlidp.Options{URL: harness.MustURL("https://idp.example.com"), Key: kp.Key, Certificate: kp.Cert, Store: store, Logger: harness.NullLogger{}})
+				if err != nil {
+					t.Fail("C14/harness/samlidp.New", "%v", err)
+					return
+				}
+				mdb, _ := xml.Marshal(spMD)
+				srv.ServeHTTP(httptest.NewRecorder(), httptest.NewRequest("PUT", "https://idp.example.com/services/sp", bytes.NewReader(mdb)))
+				scb, _ := json.Marshal(map[string]interface{}{"service_provider": spMD.EntityID, "relay_state": "rs"})
+				srv.ServeHTTP(httptest.NewRecorder(), httptest.NewRequest("PUT", "https://idp.example.com/shortcuts/sc", bytes.NewReader(scb)))
+				render := func(str string) ([]byte, int, string) {
+					r := httptest.NewRequest("GET", "https://idp.example.com/login/sc/x", nil)
+					switch where {
+					case "path-suffix":
+						r.URL.Path, r.URL.RawPath = "/login/sc/"+str, ""
+					case "query":
+						r.URL.RawQuery = "next=" + url.QueryEscape(str) + "&raw=" + strings.NewReplacer(" ", "+", "\n", "", "\r", "", "#", "%23").Replace(str)
+					case "double-slash-path":
+						r.URL.Path, r.URL.RawPath = "/login/sc//evil.example.net/"+str, ""
+					}
+					r.RequestURI = r.URL.RequestURI()
+					w := httptest.NewRecorder()
+					_, p := guard(func() error { srv.ServeHTTP(w, r); return nil })
+					return w.Body.Bytes(), w.Code, p
+				}
+				page, code, p := render(s)
+				t.Impl(1)
+				if p != "" {
+					t.Outcome("panic")
+					return
+				}
+				if !strings.Contains(string(page), "name=\"password\"") {
+					t.Outcome("no-login-form:" + fmt.Sprint(code))
+					return
+				}
+				bpage, _, _ := render("benign")
+				base, _ := htmlform.Parse(bpage)
+				lf := c14Form{name: "idp-login-shortcut", fields: []string{"RelayState"}}
+				hf, herr := htmlform.Parse(page)
+				if herr == nil && base != nil && hf.Action != base.Action {
+					t.Fail("C14/idp-login-shortcut/action-depends-on-the-request", "the login form's action is %q for this request and %q for the same request with benign strings: the peer's %s reaches the action", hf.Action, base.Action, where)
+					t.Input("page", string(trunc(page, 4000)))
+				}
+				if base != nil {
+					c14CheckPage(t, lf, base, page, srv.IDP.LoginURL.String(), "rs", key)
+				}
+			})
+		}
+	}
+
 	c14Metadata(c)
 }
 
@@ -449,7 +511,7 @@ func c14Metadata(c *core.Ctx) {
 	for _, slot := range c14Slots {
 		for _, b := range c14Bindings {
 			for _, sch := range c14Schemes {
-				for _, attr := range []string{"Location", "ResponseLocation", "both"} {
+				for _, attr := range []string{"Location", "ResponseLocation", "both", "Location+valid-ResponseLocation", "valid-Location+ResponseLocation"} {
 					for _, wrap := range []bool{false, true} {
 						slot, b, sch, attr, wrap := slot, b, sch, attr, wrap
 						key := fmt.Sprintf("md/%s/%s/%s/%s/%s/entities=%v", slot.role, slot.el, b[strings.LastIndex(b, ":")+1:], sch.name, attr, wrap)
@@ -463,6 +525,10 @@ func c14Metadata(c *core.Ctx) {
 								rloc = sch.loc
 							case "both":
 								loc, rloc = sch.loc, sch.loc
+							case "Location+valid-ResponseLocation": // a well-formed ResponseLocation next to the hostile Location
+								loc, rloc = sch.loc, "https://ok.example.com/return"
+							case "valid-Location+ResponseLocation":
+								loc, rloc = "https://ok.example.com/loc", sch.loc
 							}
 							ep := fmt.Sprintf(`<%s Binding="%s" Location="%s"`, slot.el, b, xmlAttrEscape(loc))
 							if attr != "Location" {
